@@ -41,6 +41,28 @@ macro "kernel_arith" : tactic =>
   `(tactic| ((try dsimp only) <;> (repeat' (split <;> try dsimp only)) <;>
       first | kernel_fin | (simp_all; (repeat' split) <;> kernel_fin)))
 
+/-- a wrapping 64-bit subtraction that does not borrow -/
+theorem sub_wrap64 (a b : Nat) (h1 : b ≤ a) (h2 : a < 18446744073709551616) :
+    (a + 18446744073709551616 - b) % 18446744073709551616 = a - b := by omega
+/-- a wrapping 32-bit subtraction that does not borrow -/
+theorem sub_wrap32 (a b : Nat) (h1 : b ≤ a) (h2 : a < 4294967296) :
+    (a + 4294967296 - b) % 4294967296 = a - b := by omega
+
+/-- `(if c then a else b) = (if c' then a' else b')` (also against a non-`if`): conditions equivalent by `omega`, branches recursively -/
+syntax "kernel_ite" : tactic
+macro_rules
+  | `(tactic| kernel_ite) =>
+    `(tactic| first
+      | (rw [if_pos (by omega)] <;> kernel_ite)
+      | (rw [if_neg (by omega)] <;> kernel_ite)
+      | (refine ite_congr (propext ⟨fun _ => by omega, fun _ => by omega⟩) (fun _ => ?_) (fun _ => ?_) <;> kernel_ite)
+      | omega
+      | rfl)
+
+/-- remove every `% 2^w` whose argument provably does not wrap, and every wrapping subtraction that does not borrow -/
+macro "kernel_nowrap" : tactic =>
+  `(tactic| simp (disch := omega) only [Nat.mod_eq_of_lt, sub_wrap64, sub_wrap32])
+
 /-- equality of two `Bool`s that are `decide`s / `&&`s of linear-arithmetic facts -/
 macro "kernel_bool" : tactic =>
   `(tactic| (rw [Bool.eq_iff_iff] <;>
@@ -143,15 +165,10 @@ theorem index_file_size_eq (cb us count listSize sp : Nat) (h1 : cb + sp + us + 
   rw [← hc.1, ← hc.2, ← hi.1, ← hi.2]
   generalize Kernels.vli_ceil4 us = c at *
   generalize Kernels.index_size count listSize = s at *
-  have e1 : (((cb + 24) % 18446744073709551616 + sp) % 18446744073709551616 + c) % 18446744073709551616 = cb + 2 * 12 + sp + c := by omega
-  simp only [e1]
-  by_cases hA : cb + 2 * 12 + sp + c > 9223372036854775807
-  · simp [hA, ofOpt]
-  · have e2 : (cb + 2 * 12 + sp + c + s) % 18446744073709551616 = cb + 2 * 12 + sp + c + s := by omega
-    simp only [hA, if_false, e2]
-    by_cases hB : cb + 2 * 12 + sp + c + s > 9223372036854775807
-    · simp [hB, ofOpt]
-    · simp [hB, ofOpt]
+  dsimp only
+  constructor
+  · (repeat' split) <;> simp only [ofOpt] <;> omega
+  · (repeat' split) <;> omega
 
 /-! ## Check sizes and Block sizes (check.c, block_util.c) — C02 -/
 
@@ -318,25 +335,12 @@ theorem index_memusage_eq_index (streams blocks : Nat) (hs : streams < U64) (hb 
   unfold U64 at hs hb
   unfold Kernels.lzma_index_memusage Index.memusage Index.SIZEOF_VOID_PTR Index.SIZEOF_INDEX_STREAM Index.SIZEOF_INDEX_GROUP
     Index.INDEX_GROUP_SIZE Index.SIZEOF_INDEX_RECORD Index.SIZEOF_LZMA_INDEX Index.U64 Index.UINT32_MAX Index.VLI_MAX
+  dsimp only
   simp only [Nat.reduceMul, Nat.reduceAdd, Nat.reduceSub, Nat.reduceDiv]
   by_cases hA : streams = 0 ∨ streams > 4294967295 ∨ blocks > 9223372036854775807
-  · rw [if_pos (by omega), if_pos (by omega)]
-  · have e1 : ((blocks + 512) % 18446744073709551616 + 18446744073709551616 - 1) % 18446744073709551616 = blocks + 511 := by omega
-    have e2 : (blocks + 512 - 1) % 18446744073709551616 = blocks + 511 := by omega
-    have e3 : streams * 296 % 18446744073709551616 = streams * 296 := by omega
-    simp only [e1, e2, e3]
-    generalize (blocks + 511) / 512 = g
-    by_cases hG : g > 2225717190360708
-    · rw [if_pos (by omega), if_pos (by omega)]
-    · have hg' : g * 8288 < 18446744073709551616 := by omega
-      have e4 : g * 8288 % 18446744073709551616 = g * 8288 := Nat.mod_eq_of_lt hg'
-      have e5 : (18446744073709551503 + 18446744073709551616 - streams * 296) % 18446744073709551616 = 18446744073709551503 - streams * 296 := by omega
-      have e6 : (112 + streams * 296) % 18446744073709551616 = 112 + streams * 296 := by omega
-      simp only [e4, e5, e6]
-      by_cases hL : 18446744073709551503 - streams * 296 < g * 8288
-      · rw [if_pos (by omega), if_pos (by omega)]
-      · rw [if_neg (by omega), if_neg (by omega)]
-        exact Nat.mod_eq_of_lt (by omega)
+  · kernel_ite
+  · kernel_nowrap
+    kernel_ite
 
 theorem index_memusage_eq_memusage_aux (b : Memusage.Build) (streams blocks : Nat) (hs : streams < U64) (hb : blocks < U64)
     (h1 : b.szVoidPtr = 8) (h2 : b.szIndexStream = 168) (h3 : b.szIndexGroup = 64) (h4 : b.szIndexRecord = 16) (h5 : b.szIndex = 80) :
@@ -345,25 +349,15 @@ theorem index_memusage_eq_memusage_aux (b : Memusage.Build) (streams blocks : Na
   unfold Kernels.lzma_index_memusage Memusage.indexMemusage Memusage.INDEX_GROUP_SIZE Memusage.UINT64_MAX
     Memusage.UINT32_MAX Memusage.VLI_MAX
   rw [h1, h2, h3, h4, h5]
-  simp only [Nat.reduceMul, Nat.reduceAdd, Nat.reduceSub, Nat.reduceDiv]
+  dsimp only
+  simp only [Nat.reduceMul, Nat.reduceAdd, Nat.reduceSub, Nat.reduceDiv, apply_ite ofOpt]
+  simp only [ofOpt]
   by_cases hA : streams = 0 ∨ streams > 4294967295 ∨ blocks > 9223372036854775807
-  · rw [if_pos (by omega), if_pos (by omega)]; rfl
-  · have e1 : ((blocks + 512) % 18446744073709551616 + 18446744073709551616 - 1) % 18446744073709551616 = blocks + 511 := by omega
-    have e2 : blocks + 512 - 1 = blocks + 511 := by omega
-    have e3 : streams * 296 % 18446744073709551616 = streams * 296 := by omega
-    simp only [e1, e2, e3]
-    generalize (blocks + 511) / 512 = g
-    by_cases hG : g > 2225717190360708
-    · rw [if_pos (by omega), if_pos (by omega)]; rfl
-    · have hg' : g * 8288 < 18446744073709551616 := by omega
-      have e4 : g * 8288 % 18446744073709551616 = g * 8288 := Nat.mod_eq_of_lt hg'
-      have e5 : (18446744073709551503 + 18446744073709551616 - streams * 296) % 18446744073709551616 = 18446744073709551503 - streams * 296 := by omega
-      have e6 : (112 + streams * 296) % 18446744073709551616 = 112 + streams * 296 := by omega
-      simp only [e4, e5, e6]
-      by_cases hL : 18446744073709551503 - streams * 296 < g * 8288
-      · rw [if_pos (by omega), if_pos (by omega)]; rfl
-      · rw [if_neg (by omega), if_neg (by omega)]
-        exact Nat.mod_eq_of_lt (by omega)
+  · kernel_ite
+  · by_cases hG : (blocks + 512 - 1) / 512 > 2225717190360708
+    · kernel_ite
+    · kernel_nowrap
+      kernel_ite
 
 /-- … and against the C09 model, which is written without wrap-around (`none` = UINT64_MAX). -/
 theorem index_memusage_eq_memusage (streams blocks : Nat) (hs : streams < U64) (hb : blocks < U64) :
